@@ -1003,7 +1003,8 @@ impl<'a, 'src: 'a> Compiler<'a, 'src> {
       .offset_line(offset as usize)
       .expect("Line offset out of bounds");
 
-    self.write_instruction(op_code, line as u16 + 1);
+    // chunks store lines as u16, later lines are reported as the last representable one
+    self.write_instruction(op_code, (line + 1).min(u16::MAX as usize) as u16);
   }
 
   /// write instruction to the current function
